@@ -152,6 +152,10 @@ func Open(sr *io.SectionReader, opt ...OpenOption) (*Reader, error) {
 		if tocOffset >= 0 && tocSize <= 0 {
 			tocSize = sr.Size() - tocOffset - fSize
 		}
+		if tocOffset >= 0 && (tocSize < 0 || tocOffset > sr.Size()-tocSize) {
+			allErr = append(allErr, fmt.Errorf("invalid TOC range (offset=%d, size=%d) in the blob of size %d", tocOffset, tocSize, sr.Size()))
+			continue
+		}
 		if tocOffset >= 0 && tocSize < int64(len(maybeTocBytes)) {
 			maybeTocBytes = maybeTocBytes[:tocSize]
 		}
@@ -289,6 +293,10 @@ func (r *Reader) initFields() error {
 			if err != nil {
 				return err
 			}
+			if org.Type == "dir" {
+				// A directory reachable from its own descendant makes the tree cyclic.
+				return fmt.Errorf("%q is a hardlink to the directory %q", ent.Name, ent.LinkName)
+			}
 			org.NumLink++ // original entry is referenced by this ent.Name.
 			ent = org
 		}
@@ -319,15 +327,17 @@ func (r *Reader) initFields() error {
 }
 
 func (r *Reader) getSource(ent *TOCEntry) (_ *TOCEntry, err error) {
-	if ent.Type == "hardlink" {
+	// A chain of hardlinks never needs to be longer than the number of entries. Longer one
+	// means that the chain contains a cycle.
+	for i := 0; ent.Type == "hardlink"; i++ {
+		if i > len(r.m) {
+			return nil, fmt.Errorf("%q is a hardlink but the link chain doesn't end", ent.Name)
+		}
 		org, ok := r.m[cleanEntryName(ent.LinkName)]
 		if !ok {
 			return nil, fmt.Errorf("%q is a hardlink but the linkname %q isn't found", ent.Name, ent.LinkName)
 		}
-		ent, err = r.getSource(org)
-		if err != nil {
-			return nil, err
-		}
+		ent = org
 	}
 	return ent, nil
 }
